@@ -582,7 +582,7 @@ func (r *replayer) build(pkg string) (string, error) {
 		}
 		rel, _ := filepath.Rel(hdir, p)
 		dir := filepath.Dir(rel)
-		if dir == "verifrt" {
+		if dir == "verifrt" || dir == "veriflib" {
 			replace[filepath.Join(r.repo, "internal", rel)] = p
 			return nil
 		}
